@@ -111,7 +111,7 @@ def generated_code_verbatim(d, o, out):
 
 # rewritten by design (escape dropped, link -> reference link when a matching definition exists, words of a non-atomic token
 # separated by a container prefix) or by a recorded finding
-UNSTABLE_TOKENS = {"2023\\.", "www.example.com/p", "[w](http://x.y/t \"T  w\")", "[t](http://r.ef/x)", "![i2](http://r.ef/x)", "\\# no", "[ref]", "~(old)~", "~was it?~"}
+UNSTABLE_TOKENS = {"2023\\.", "www.example.com/p", "[w](http://x.y/t \"T  w\")", "[t](http://r.ef/x)", "![i2](http://r.ef/x)", "\\# no", "[ref]", "~(old)~", "~was it?~", "**__y__**"}
 
 
 def generated_tokens_present(d, o, out):
